@@ -57,16 +57,18 @@ def grep_forbidden():
 
 def theorems_of(prop):
     """names of the theorems stated in Prov/Props/<prop>.lean (namespace Prov.<prop>)"""
-    p = os.path.join(LEAN, "Prov", "Props", prop + ".lean")
-    if not os.path.exists(p):
-        return []
-    body = strip_comments(open(p, encoding="utf-8").read())
-    ns = None
-    m = re.search(r"^namespace\s+(\S+)", body, re.M)
-    if m:
-        ns = m.group(1)
-    names = re.findall(r"^theorem\s+([A-Za-z0-9_.']+)", body, re.M)
-    return [(ns + "." + n) if ns else n for n in names]
+    import glob
+    out = []
+    # the property's own module and its satellite modules (<prop>T1.lean, ...: heavy kernel evaluations built in parallel)
+    for p in sorted(glob.glob(os.path.join(LEAN, "Prov", "Props", prop + "*.lean"))):
+        body = strip_comments(open(p, encoding="utf-8").read())
+        ns = None
+        m = re.search(r"^namespace\s+(\S+)", body, re.M)
+        if m:
+            ns = m.group(1)
+        names = re.findall(r"^theorem\s+([A-Za-z0-9_.']+)", body, re.M)
+        out += [(ns + "." + n) if ns else n for n in names]
+    return out
 
 
 def run(cmd, cwd=None, timeout=3600):
@@ -90,13 +92,13 @@ def lean_stage(prop, extra_modules=(), clean=False, leanchecker=False):
         res["tables_changed"] = "CHANGED" in out
         targets = ["driver", "Prov.Props.Tables", "Prov.Props." + prop] + list(extra_modules)
         if clean:
-            for mod in ["Prov.Props." + prop]:
-                base = os.path.join(LEAN, ".lake", "build", "lib", "lean", *mod.split("."))
-                for ext in (".olean", ".ilean", ".olean.hash", ".trace", ".ilean.hash"):
-                    try:
-                        os.remove(base + ext)
-                    except OSError:
-                        pass
+            import glob
+            libdir = os.path.join(LEAN, ".lake", "build", "lib", "lean", "Prov", "Props")
+            for f in glob.glob(os.path.join(libdir, prop + "*")):
+                try:
+                    os.remove(f)
+                except OSError:
+                    pass
         rc, out = run(["lake", "build"] + targets, cwd=LEAN)
         res["build_log"] = "\n".join(l for l in out.splitlines() if "conda" not in l)[-6000:]
         res["build_ok"] = rc == 0
